@@ -149,6 +149,22 @@ let run_line lineno line =
       (join face t.Model.tfaces) (join ni k.Model.offsets) (join ni k.Model.counts) (join ni k.Model.connections)
       (join ni t.Model.tstored) (String.concat "," nb) (String.concat "," fidx)
       (join face (Model.face_integrals cs)) (join face (Model.face_integrals_sym active cs)) (join ni (Model.cell_integrals cs))
+  | "clipcomb" :: np :: pidx :: nv :: rest ->
+    (* clipcomb nplanes p_idx nv (d0 d1 d2 removed)*  -> combinatorial clip on the given array *)
+    let ios = int_of_string in
+    let np = ios np and pidx = ios pidx and nv = ios nv in
+    let rec verts k l acc = if k = 0 then List.rev acc else
+        (match l with a :: b :: c :: r :: tl -> verts (k - 1) tl ((((nat_of_int (ios a), nat_of_int (ios b)), nat_of_int (ios c)), r = "1") :: acc)
+                    | _ -> failwith "verts") in
+    let vs = verts nv rest [] in
+    let dflt = (((Model.O, Model.O), Model.O), false) in
+    let res = Model.clip_comb fst dflt (Model.cyc_new (nat_of_int np)) snd vs (nat_of_int pidx) in
+    (match res with
+     | None -> Printf.printf "%d null\n" lineno
+     | Some ((cyc, kept), nd) ->
+       let tri ((a, b), c) = Printf.sprintf "[%d,%d,%d]" (int_of_nat a) (int_of_nat b) (int_of_nat c) in
+       Printf.printf "%d {\"kept\":[%s],\"new\":[%s],\"len\":%d}\n" lineno
+         (join (fun (d, _) -> tri d) kept) (join tri nd) (int_of_nat cyc.Model.clen))
   | "nn" :: rest ->
     (* nn q(3) nshifts (sx sy sz code)* <tree in prefix form: L id x y z | N lox loy loz hix hiy hiz nchildren ...> *)
     let q, rest = v3 rest in
